@@ -68,8 +68,8 @@ type Projector struct {
 	pendP     *[2]any
 	pendB     *[3]any
 	Out       []M
-	TLS       bool // after 'S': the raw stream is TLS records; protocol messages come from the TLS client
-	wireBytes int
+	TLS       bool           // after 'S': the raw stream is TLS records; protocol messages come from the TLS client
+	Plain     map[int][]byte // server Write index -> plaintext the TLS client decrypted from it
 }
 
 // Feed consumes one raw event.
@@ -154,7 +154,21 @@ func (p *Projector) Feed(e mem.Ev) {
 		}
 		p.Out = append(p.Out, M{"k": "send", "m": Clean(m)})
 	case "write":
+		if p.TLS {
+			// everything after 'S' must be TLS records; the protocol messages are what the TLS client found inside
+			if p.Proj != nil && p.Proj.Wire {
+				p.Out = append(p.Out, M{"k": "wire", "rec": tlsRecords(e["b"].([]byte))})
+			}
+			if pt := p.Plain[AsInt(e["wi"])]; len(pt) > 0 {
+				p.TLS = false
+				p.bytes(pt)
+				p.TLS = true
+			}
+			return
+		}
 		p.bytes(e["b"].([]byte))
+	case "tls", "tlsfail":
+		p.Out = append(p.Out, M{"k": e["k"]})
 	case "cb":
 		p.Out = append(p.Out, M{"k": "cb", "c": p.Proj.KeepCb(AsM(e["c"]))})
 	case "idle":
@@ -190,6 +204,14 @@ func (p *Projector) bytes(b []byte) {
 	for p.sslWait > 0 && len(b) > 0 && len(p.stream) == 0 {
 		p.sslWait--
 		p.Out = append(p.Out, M{"k": "recv", "m": M{"t": "ssl", "b": string(b[:1])}})
+		if b[0] == 'S' {
+			// from here on the raw stream is the TLS session
+			p.TLS = true
+			if len(b) > 1 && p.Proj != nil && p.Proj.Wire {
+				p.Out = append(p.Out, M{"k": "wire", "rec": tlsRecords(b[1:])})
+			}
+			return
+		}
 		b = b[1:]
 	}
 	if len(b) == 0 {
@@ -306,6 +328,21 @@ func (p *Projector) abstract(m pgw.Msg) M {
 		}
 	}
 	return p.Proj.KeepRecv(r)
+}
+
+// tlsRecords reports whether b is a sequence of complete TLS records.
+func tlsRecords(b []byte) bool {
+	for len(b) > 0 {
+		if len(b) < 5 || b[0] < 20 || b[0] > 23 || b[1] != 3 || b[2] > 4 {
+			return false
+		}
+		n := int(b[3])<<8 | int(b[4])
+		if n > 16384+2048 || len(b) < 5+n {
+			return false
+		}
+		b = b[5+n:]
+	}
+	return true
 }
 
 // SetFormats tells the projector which result formats apply to the rows that
